@@ -31,17 +31,62 @@ CLASSES = {
 }
 
 
-def _build(clsname, dtype):
+FIELDS = {
+    "SwitcherPowerPlug": ("power_consumption", "electric_current"),
+    "SwitcherWaterHeater": ("power_consumption", "electric_current", "remaining_time", "auto_shutdown"),
+    "SwitcherThermostat": ("mode", "temperature", "target_temperature", "fan_level", "swing", "remote_id"),
+    "SwitcherShutter": ("position", "direction"),
+}
+BASE_FIELDS = ("device_type", "device_state", "device_id", "device_key", "ip_address", "mac_address", "name")
+HOWS = ("positional", "keyword", "replace")
+
+
+def _args(clsname, dtype):
     from aioswitcher import device as d
 
     base = (dtype, d.DeviceState.ON, "aabbcc", "18", "192.168.1.33", "12:A1:A2:1A:BC:1A", "My Device")
     if clsname == "SwitcherPowerPlug":
-        return d.SwitcherPowerPlug(*base, 100, 0.5)
+        return base + (100, 0.5)
     if clsname == "SwitcherWaterHeater":
-        return d.SwitcherWaterHeater(*base, 100, 0.5, "01:00:00", "02:00:00")
+        return base + (100, 0.5, "01:00:00", "02:00:00")
     if clsname == "SwitcherThermostat":
-        return d.SwitcherThermostat(*base, d.ThermostatMode.COOL, 24.5, 23, d.ThermostatFanLevel.LOW, d.ThermostatSwing.OFF, "ELEC7001")
-    return d.SwitcherShutter(*base, 50, d.ShutterDirection.SHUTTER_STOP)
+        return base + (d.ThermostatMode.COOL, 24.5, 23, d.ThermostatFanLevel.LOW, d.ThermostatSwing.OFF, "ELEC7001")
+    return base + (50, d.ShutterDirection.SHUTTER_STOP)
+
+
+def _build(clsname, dtype, how="positional"):
+    """how: positional | keyword (every argument by name) | replace (dataclasses.replace of a valid object)"""
+    import dataclasses
+
+    from aioswitcher import device as d
+
+    if how == "replace":
+        own = {"SwitcherPowerPlug": d.DeviceType.POWER_PLUG, "SwitcherWaterHeater": d.DeviceType.V4,
+               "SwitcherThermostat": d.DeviceType.BREEZE, "SwitcherShutter": d.DeviceType.RUNNER}[clsname]
+        return dataclasses.replace(_build(clsname, own), device_type=dtype)
+    if how == "keyword":
+        return getattr(d, clsname)(**dict(zip(BASE_FIELDS + FIELDS[clsname], _args(clsname, dtype))))
+    return getattr(d, clsname)(*_args(clsname, dtype))
+
+
+def disturb():
+    """Things that happen in a process before a device object is built: a bridge that received an undecodable
+    datagram and whose callback raised once. None of it may change which types a class accepts."""
+    from mc.bridgeworld import BridgeWorld
+    from mc.world import Capture
+    from ref import broadcast as B
+
+    with Capture():
+        bw = BridgeWorld(1, raise_on=lambda n, dev: n == 0)
+        try:
+            bw.start()
+            bad = bytearray(B.encode("TOUCH", name="x"))
+            bad[42:46] = b"\xff\xfe\xfd\xfc"
+            for data in (B.encode("V4", name="first"), bytes(bad), B.encode("BREEZE", name="br", model_code="7f7f"), bytes(bad)):
+                bw.send(bw.ports[0], data)
+                bw.settle()
+        finally:
+            bw.close()
 
 
 def jobs(tier, seed):
@@ -53,24 +98,27 @@ def check_case(case, res):
     from aioswitcher import api, bridge
 
     k = case["kind"]
+    if k == "disturb":
+        disturb()
+        return
     if k == "ctor":
         dtype = getattr(d.DeviceType, case["type"])
         want_ok = dtype.category.name == CLASSES[case["cls"]]
         try:
-            obj = _build(case["cls"], dtype)
+            obj = _build(case["cls"], dtype, case.get("how", "positional"))
             raised = None
         except ValueError:
             obj, raised = None, "ValueError"
         except Exception as exc:  # noqa: BLE001
             obj, raised = None, type(exc).__name__
-        res.case(("ctor", case["cls"], case["type"], case.get("round", 0)))
+        res.case(("ctor", case["cls"], case["type"], case.get("round", 0), case.get("how")))
         res.outcome((case["cls"], case["type"], raised))
         if want_ok and raised:
             res.violation("class-refuses-own-type", case, f"{case['cls']}({case['type']}) raised {raised}", "accepted", raised)
         elif want_ok and (obj.device_type is not dtype or type(obj).__name__ != case["cls"]):
             res.violation("class-mangles-type", case, f"{case['cls']}({case['type']}) holds {obj.device_type}", case["type"], repr(obj.device_type))
         elif not want_ok and raised != "ValueError":
-            res.violation("class-accepts-foreign-type", case, f"{case['cls']}({case['type']}) -> {raised or 'accepted'}, expected ValueError", "ValueError", raised or "accepted")
+            res.violation("class-accepts-foreign-type", case, f"{case['cls']}({case['type']}) built {case.get('how', 'positional')}ly in round {case.get('round', 0)} -> {raised or 'accepted'}, expected ValueError", "ValueError", raised or "accepted")
     elif k == "type":
         res.case(("type", case["type"]))
         dtype = getattr(d.DeviceType, case["type"], None)
@@ -152,9 +200,12 @@ def check_case(case, res):
 def _cases():
     # every pair three times, the later passes in other orders: a verdict must not depend on what was tried before
     pairs = [(cls, t) for cls in CLASSES for t in EXPECT_TYPES]
-    for rnd, order in enumerate((pairs, list(reversed(pairs)), sorted(pairs, key=lambda p: (p[1], p[0])))):
+    for rnd, order in enumerate((pairs, list(reversed(pairs)), sorted(pairs, key=lambda p: (p[1], p[0])), pairs)):
+        if rnd == 3:
+            yield {"kind": "disturb"}
         for cls, t in order:
-            yield {"kind": "ctor", "cls": cls, "type": t, "round": rnd}
+            for how in HOWS:
+                yield {"kind": "ctor", "cls": cls, "type": t, "round": rnd, "how": how}
     for t in EXPECT_TYPES:
         yield {"kind": "type", "type": t}
     for c in sorted(set(CLASSES.values())):
